@@ -21,6 +21,7 @@ ENTRY = ('Memvid::open', 'Memvid::open_read_only', 'Memvid::open_read_only_with_
          'Memvid::vec_search_with_embedding_acl', 'Memvid::frame_embedding', 'Memvid::frame_preview_by_id')
 ASSERT_MACROS = ('assert', 'debug_assert', 'assert_eq', 'debug_assert_eq', 'assert_ne', 'debug_assert_ne', 'panic', 'unreachable', 'todo', 'unimplemented')
 REVIEWED_ASSERTS = {
+    ('TemporalNormalizer::first_business_day_next_month', 'unreachable'): 'the matched value is start_of_next_month().value, which is always built by date_resolution() as TemporalResolutionValue::Date; independent of file bytes',
     ('memvid::lifecycle::scan_range_for_toc', 'debug_assert'): 'slice.len() <= MAX_TOC_BYTES holds by construction of scan_start (start.max(end - MAX_TOC_BYTES))',
 }
 CANDIDATE_ASSERTS = {
@@ -95,6 +96,26 @@ def run(ctx):
                             not (flds & y.fields) and not any(cc in y.calls for cc in fromle)
                         if same and bound:
                             why = 'compared with a constant / the file length at line %s' % cm.line
+            if why is None:
+                # transitive bound: the quantity (times a record size, plus a header) is required to *equal* a value
+                # that is itself bounded by a dominating comparison with a constant
+                guards = lib.guards_holding_at(f, c.bb)
+                for cm, rel in guards:
+                    if rel != '==':
+                        continue
+                    for x, y in ((cm.sa(), cm.sb()), (cm.sb(), cm.sa())):
+                        same = (flds & x.fields) or any(cc in x.calls for cc in fromle)
+                        if not same or (flds & y.fields) or any(cc in y.calls for cc in fromle):
+                            continue
+                        if {'Sub', 'SubWithOverflow', 'Div', 'Shr', 'Rem', 'BitAnd'} & x.ops:
+                            continue      # the equated expression must grow with the quantity
+                        for cm2, rel2 in guards:
+                            if cm2 is cm or rel2 not in ('<=', '<'):
+                                continue
+                            for u, v in ((cm2.sa(), cm2.sb(), ), (cm2.sb(), cm2.sa())):
+                                r = rel2 if u is cm2.sa() else lib.FLIP[rel2]
+                                if r in ('<=', '<') and (set(u.args) & set(y.args) or (u.locals & y.locals and not u.calls)) and (v.const_vals() or any(k.get('name') for k in v.consts)):
+                                    why = 'required to equal a value bounded by a constant (lines %s, %s)' % (cm.line, cm2.line)
             if why is None:
                 # local validator: a dominating successful call whose body compares the same field with a constant
                 for v in f.calls():
